@@ -4,6 +4,10 @@ import json, os
 ROOT = os.path.dirname(os.path.dirname(os.path.abspath(__file__)))
 ALL = ["C%02d" % i for i in range(1, 20)]
 CHECKS = {
+ "C09": dict(cat="exploration", ref="§4 C09",
+   technique="bounded-deviation exhaustive enumeration of header contents (all single-byte deviations, full product of the two version bytes, all position pairs over a boundary alphabet) on the real parser/serialiser against an independent layout table",
+   text="Each enumerated 80-byte header is parsed by the real code, every exported field compared with an independent (address, width) layout table, the version rule checked, the header serialised and re-parsed, and the ROM-level ReadHeader/WriteHeader round trip compared byte for byte on whole images. The space is a stated union of products completely enumerated; the completeness argument (content-independent byte permutation) is recorded in the evidence.",
+   note="Not all 2^640 headers: deviation bound 1 over all values, 2 over a 6-value alphabet (thorough: 3 around the version bytes), from 7 base headers."),
  "C10": dict(cat="model_checking", ref="§4 C10",
    technique="exhaustive enumeration of write/read call histories on the real ROM reader/writer (all length sequences to depth 4/5 from boundary offsets, all banks x boundary offsets) against a window reference model with full-image comparison",
    text="Every history of Write/Read calls from the stated alphabet is executed on a fresh real ROM object; after every call the whole image and the returned (n, err) are compared with a reference window model. Deviations are classified by alternative models (reader window short by one, legacy writer), so the one recorded known finding is recognised by its exact behaviour and anything else is a violation.",
